@@ -109,6 +109,13 @@ class RerunFormatter(Formatter):
             self.stream.write("\n")
 
         # -- SECTION: Scenario file locations, ala: "alice.feature:10"
+        # NOTE: Entries of a features list file are evaluated relative to the
+        #       directory of this file ("behave @reports/rerun.txt").
+        here = os.path.dirname(self.stream_opener.name or "")
         for scenario in self.failed_scenarios:
-            self.stream.write(u"%s\n" % scenario.location)
+            location = u"%s" % scenario.location
+            if here and not os.path.isabs(scenario.filename):
+                location = u"%s:%d" % (relpath(scenario.filename, here),
+                                       scenario.line)
+            self.stream.write(u"%s\n" % location)
         self.stream.write("\n")
